@@ -118,6 +118,7 @@ PROPS['C06'] = dict(
 )
 
 PROPS['C16'] = dict(
+    bounded_quick=[('history', 'whole-history behaviour under different open options: the tree layer (split / merge thresholds depend on the page size) is outside the verifier\'s reach; cex/history.rs replays seeded histories under page sizes 1024/1032/3000/4096/16384, 4 or 64 initial pages, strict mode off/on')],
     level='proof',
     units=['open', 'freelist', 'commit'],
     kani_quick=['frombuf'],
